@@ -38,7 +38,7 @@ def gen_time(rng, grid=GRID):
     return ("T", rng.choice(grid), rng.choice(OFFSETS))
 
 
-def gen_point(rng, meas=MEAS, allow_no_time=False, extra_tag_vals=(), extra_meas=()):
+def gen_point(rng, meas=MEAS, allow_no_time=False, extra_tag_vals=(), extra_meas=(), extra_tag_keys=(), extra_field_keys=()):
     """A point spec: {"t": ("T",us,off)|None, "m": str|None, "tags", "fields"}."""
     p = {}
     if allow_no_time and rng.random() < 0.1:
@@ -51,11 +51,11 @@ def gen_point(rng, meas=MEAS, allow_no_time=False, extra_tag_vals=(), extra_meas
     else:
         p["m"] = rng.choice(list(meas) + list(extra_meas))
     tags = {}
-    for k in TAG_KEYS:
+    for k in TAG_KEYS + list(extra_tag_keys):
         if rng.random() < 0.4:
             tags[k] = rng.choice(TAG_VALS + list(extra_tag_vals))
     fields = {}
-    for k in FIELD_KEYS:
+    for k in FIELD_KEYS + list(extra_field_keys):
         if rng.random() < 0.55:
             fields[k] = rng.choice(FIELD_VALS)
     p["tags"] = tags
@@ -202,5 +202,9 @@ def gen_update_args(rng, opts=None):
         if rng.random() < 0.25:
             ks = rng.sample(FIELD_KEYS + ["n"], rng.choice([1, 1, 2]))
             a["unset_fields"] = ks[0] if len(ks) == 1 and rng.random() < 0.5 else ks
+        for k in ("unset_tags", "unset_fields"):
+            if isinstance(a.get(k), list) and rng.random() < 0.5:
+                # any iterable of strings is documented: tuples, sets, one-shot generators
+                a[k + "_form"] = rng.choice(["tuple", "gen", "keys"])
         if a:
             return a
